@@ -30,6 +30,7 @@ pub fn fld(name: &str, lo: u32, w: u32, ty: FieldTy, access: Access) -> Field {
         access,
         arg_order: 0,
                 opt_path: 0,
+                huge: None,
     }
 }
 
@@ -240,7 +241,7 @@ pub fn sys_lists(tier: Tier) -> Vec<Layout> {
                             r.swap(0, n - 1);
                         }
                     }
-                    let f = Field { name: "l".into(), kw_bit: false, list: true, ranges: r, array: None, ty: ty.clone(), access: Access::RW, arg_order: 0, opt_path: 0 };
+                    let f = Field { name: "l".into(), kw_bit: false, list: true, ranges: r, array: None, ty: ty.clone(), access: Access::RW, arg_order: 0, opt_path: 0, huge: None };
                     let mut l = lay(b, vec![f]);
                     if let Some(e) = en {
                         l.enums.push(e.clone());
@@ -296,6 +297,7 @@ pub fn sys_lists(tier: Tier) -> Vec<Layout> {
                                 access: Access::RW,
                                 arg_order: 0,
                                 opt_path: 0,
+                huge: None,
                             };
                             out.push(lay(b, vec![f]));
                         }
@@ -341,6 +343,7 @@ pub fn sys_signed(tier: Tier) -> Vec<Layout> {
                     access: Access::RW,
                     arg_order: 0,
                 opt_path: 0,
+                huge: None,
                 };
                 out.push(lay(b, vec![f]));
             }
@@ -678,6 +681,22 @@ pub fn enum_corpus(tier: Tier, seed: u64) -> Vec<(usize, EnumDecl)> {
             variants.insert(0, Variant { disc: Disc::Lit { value: m / 2, radix: 10, underscore: false }, ..off.clone() });
             variants.insert((m / 2) as usize + 1, Variant { name: "Off2".into(), disc: Disc::Lit { value: m / 2, radix: 16, underscore: false }, cfg: Cfg::Never, style: 0 });
             v.push(EnumDecl { name: "E".into(), bits: n, variants, exhaustive: Exh::Conditional, colon: false, qualified: false });
+            // exactly 2^n variants listed, one of them compiled out (first / middle / last): the missing
+            // value must come back as Err, not panic
+            for off in [0u128, m / 2, m] {
+                let variants: Vec<Variant> = (0..=m)
+                    .map(|d| Variant {
+                        name: format!("V{}", d),
+                        disc: Disc::Lit { value: d, radix: 10, underscore: false },
+                        cfg: if d == off { Cfg::Never } else if d % 3 == 1 { Cfg::Always } else { Cfg::None },
+                        style: (d % 4) as u8,
+                    })
+                    .collect();
+                if variants.iter().all(|x| x.cfg == Cfg::Never) {
+                    continue;
+                }
+                v.push(EnumDecl { name: "E".into(), bits: n, variants, exhaustive: Exh::Conditional, colon: false, qualified: false });
+            }
         }
     }
     v.into_iter().enumerate().collect()
